@@ -44,6 +44,24 @@ def run(pid, tier, seed):
             seen.add(sig)
             violations.append({"formula": v["p"], "signature": sig, "replay": {"engine": "auth", "scenario": d},
                                "detail": json.dumps({k: d[k] for k in ("a", "b", "slot", "m", "acceptA", "acceptB")})})
+        # the worker's real connection path with cut connections and retries (hqv authretry, ~12 s of real time)
+        rtrace = os.path.join(work, "authretry.ndjson")
+        p = subprocess.run([common.HQV, "authretry", "--out", rtrace], stdout=subprocess.PIPE, stderr=subprocess.PIPE, text=True, timeout=600)
+        if p.returncode != 0:
+            raise common.ToolError("authretry harness failed: " + p.stderr[-2000:])
+        out = common.tlc("AuthRetryTrace.tla", "AuthRetryTrace.cfg", work, env={"TRACE": rtrace}, workers=1, timeout=600)
+        verdict = common.tlc_printed(out, "VERDICT")
+        rviols = common.tlc_printed(out, "VIOL")
+        if not verdict or "Model checking completed. No error has been found." not in out or verdict[-1]["diameter"] - 1 != verdict[-1]["lines"]:
+            raise common.ToolError("authretry trace validation did not complete:\n" + out[-3000:])
+        rlines = open(rtrace).read().splitlines()
+        for v in rviols[-1] if rviols else []:
+            d = json.loads(rlines[v["line"] - 1])
+            sig = f"{v['p']}:retry:worker={d['worker_key']}:peer={d['peer_key']}:cut={d['dropped_first']}"
+            if sig in seen:
+                continue
+            seen.add(sig)
+            violations.append({"formula": v["p"], "signature": sig, "replay": {"engine": "auth", "retry_case": d}, "detail": json.dumps(d)})
         accepts = sum(1 for l in lines if '"acceptA":true' in l or '"acceptB":true' in l)
         coverage = {
             "states": mc["scenarios"], "transitions": mc["scenarios"],
@@ -51,7 +69,8 @@ def run(pid, tier, seed):
             "samples": [json.loads(lines[0]), json.loads(lines[len(lines) // 2])],
             "configurations": mc["configs"], "scenario_space": stats["scenario_space"], "scenarios_run_on_real_code": stats["scenarios_run"],
             "scenarios_with_an_accepting_endpoint": accepts, "exhaustive": stats["scenarios_run"] == stats["scenario_space"],
-            "checker_cmd": "tlc MC_Auth.tla; hqv auth; tlc AuthTrace.tla",
+            "worker_connection_path_cases_with_cut_connections": len(rlines),
+            "checker_cmd": "tlc MC_Auth.tla; hqv auth; tlc AuthTrace.tla; hqv authretry; tlc AuthRetryTrace.tla",
             "explanation": "states = scenarios (configuration x single adversary move) over which the closed property formulas of Auth.tla "
                            "were evaluated by TLC; every one of them was executed on the real do_authentication",
         }
